@@ -377,7 +377,8 @@ protected:
     SyntaxNode& operator=(const SyntaxNode& other) = delete;
 
     SyntaxToken tokenAtIndex(LexedTokens::IndexType tkIdx) const;
-    SyntaxToken findValidToken(const std::vector<SyntaxHolder>& syntaxHolders) const;
+    SyntaxToken findValidToken(const std::vector<SyntaxHolder>& syntaxHolders,
+                               bool fromLast = false) const;
 
     virtual SyntaxVisitor::Action dispatchVisit(SyntaxVisitor* visitor) const = 0;
     virtual std::vector<SyntaxHolder> childNodesAndTokens() const { return {}; }
